@@ -31,6 +31,9 @@ POS_CHANGING = ("push", "insert", "remove", "swap_remove", "sort", "sort_by", "s
                 "sort_unstable", "sort_unstable_by", "sort_unstable_by_key", "retain", "retain_mut", "truncate", "clear",
                 "drain", "dedup", "dedup_by", "dedup_by_key", "swap", "reverse", "rotate_left", "rotate_right", "append",
                 "extend", "pop", "split_off", "resize", "extend_from_slice")
+# moves elements past each other regardless of salience: a later stable sort restores the salience order but not the
+# insertion order among equal saliences
+ORDER_DESTROYING = ("swap_remove", "swap", "reverse", "rotate_left", "rotate_right")
 STABLE = ("sort_by", "sort_by_key", "sort_by_cached_key", "sort")
 UNSTABLE = ("sort_unstable", "sort_unstable_by", "sort_unstable_by_key", "select_nth_unstable", "select_nth_unstable_by")
 
@@ -221,6 +224,8 @@ def _events(P, fn):
         op = c.name.rsplit("::", 1)[1]
         if g[1] == "self.rules" and g[0] == "w" and op in POS_CHANGING:
             ev.setdefault(c.bb, []).append("vec:" + op)
+            if op in ORDER_DESTROYING:
+                ev.setdefault(c.bb, []).append("order-lost:" + op)
         if g[1] == "self.rule_index" and g[0] == "w" and op in ("insert", "remove", "clear", "retain", "drain", "extend"):
             if c.bb in in_loop and op == "insert":
                 # rebuild loop? iterator = enumerate(iter(rules guard)), inserted (name.clone(), pos)
@@ -306,6 +311,11 @@ def _iter_exit(fn, e, drv):
 
 def _judge(R, fn, seq, rebuild_ok, detail):
     name = fn.short_name
+    lost = [e for e in seq if e.startswith("order-lost:")]
+    seq = tuple(e for e in seq if not e.startswith("order-lost:"))
+    if lost:
+        R.violate("f", "insertion-order-lost:%s:%s" % (fn.name, lost[0][len("order-lost:"):]),
+                  "%s moves rules past each other with %s: a stable sort afterwards restores descending salience but not the insertion order among rules of equal salience" % (name, lost[0][len("order-lost:"):]), fn)
     seqs = ",".join(seq)
     muts = [e for e in seq if e.startswith(("vec:", "elem", "idx:"))]
     vecs = [i for i, e in enumerate(seq) if e.startswith("vec:")]
